@@ -384,6 +384,9 @@ def r9_header_span_kept(rep, facts):
                  'state, with nothing under the name and with a header-implied table there (which `[t]` adopts — a table that has no span of its own)', floor=4)
     from .shared import header_start_model
     for fn, case, out in header_start_model(facts):
+        if not (case in ('nothing there', 'a header-implied table there') and not (fn == 'start_array_table' and case == 'a header-implied table there')) \
+                and not (fn == 'start_array_table' and case == 'an array of tables there'):
+            continue            # names a header may not reopen: C09/R2
         d = 'toml_edit::parser::state::ParseState::' + fn
         loc = facts.loc(facts.body(d)) if facts.has_body(d) else ''
         if isinstance(out, str):
